@@ -405,6 +405,8 @@ func runC03(c *Ctx) {
 		}
 	}
 
+	checkWALSegments(c, "C03.")
+
 	// ---- walinfo: the size table CloseAndRepair walks is indexed from the head segment
 	if ri := c.mustFn(pkg, "", "readWALInfo"); ri != nil {
 		fields := map[string]ssa.Value{}
